@@ -14,12 +14,19 @@ import (
 	xct "github.com/zmap/zcrypto/x509/ct"
 )
 
+func head(b []byte) []byte {
+	if len(b) > 4 {
+		return b[:4]
+	}
+	return b
+}
+
 func main() {
 	bad := false
 	sig := bytes.Repeat([]byte{0xab}, 65536)
 
 	b, err := ct.MarshalDigitallySigned(ct.DigitallySigned{HashAlgorithm: ct.SHA256, SignatureAlgorithm: ct.ECDSA, Signature: sig})
-	fmt.Printf("ct.MarshalDigitallySigned(65536-byte signature): err=%v len=%d header=%x\n", err, len(b), b[:4])
+	fmt.Printf("ct.MarshalDigitallySigned(65536-byte signature): err=%v len=%d header=%x\n", err, len(b), head(b))
 	if err == nil {
 		rd := bytes.NewReader(b)
 		d, derr := ct.UnmarshalDigitallySigned(rd)
@@ -28,7 +35,7 @@ func main() {
 	}
 
 	xb, err := xct.MarshalDigitallySigned(xct.DigitallySigned{HashAlgorithm: xct.SHA256, SignatureAlgorithm: xct.ECDSA, Signature: sig})
-	fmt.Printf("x509/ct.MarshalDigitallySigned(65536-byte signature): err=%v len=%d header=%x\n", err, len(xb), xb[:4])
+	fmt.Printf("x509/ct.MarshalDigitallySigned(65536-byte signature): err=%v len=%d header=%x\n", err, len(xb), head(xb))
 	if err == nil {
 		d, derr := xct.UnmarshalDigitallySigned(bytes.NewReader(xb))
 		fmt.Printf("  x509/ct.UnmarshalDigitallySigned: err=%v decoded signature length=%d\n", derr, len(d.Signature))
